@@ -129,6 +129,9 @@ impl PropImpl for C03 {
          multi-line value, duplicate name, >= 2 paragraphs, several empty lines, missing final newline or non-ASCII value; corrupted cases count as non-trivial when the base document is. \
          Distinct by text hash.".into()
     }
+    fn expected_labels(&self) -> Vec<&'static str> {
+        vec!["comment:top", "comment:before-first-field", "comment:between-fields", "comment:after-last-field", "comment:between-paragraphs", "comment:end", "multi-line-value", "empty-first-line", "empty-value", "no-space-after-colon", "tab-whitespace", "continuation-starts-with-colon", "several-empty-lines", "no-final-newline", "duplicate-name", "non-ascii-value", "k1-key-without-colon", "k2-name-starts-with-dash", "k3-continuation-of-nothing", "k4-control-or-non-ascii-line-start"]
+    }
     fn budget(&self, tier: Tier) -> Budget {
         Budget { cases_per_lane: if tier == Tier::Quick { 15000 } else { 60_000 }, tape_max: 700, cpu_s: 10 }
     }
